@@ -77,7 +77,7 @@ def run(ctx, res):
             names = " ".join(str(x.message) for x in w)
             if n in names:
                 stats["warned"] += 1
-            elif d["nodes"][n]["kind"]["k"] != "rule":
+            elif d["nodes"][n]["kind"]["k"] not in ("rule", "join"):
                 stats["derived_without_warning"] = stats.get("derived_without_warning", 0) + 1
             else:
                 res.add_violation(f"no-warning:{n}", f"supplying {n} (overrides a rule) on {impl.iso(o)} raised no warning naming it",
